@@ -46,6 +46,57 @@ def statement_arms(F):
     return out
 
 
+def _loops(b):
+    """natural loops: header -> set of body blocks"""
+    n = len(b.blocks)
+    out = {}
+    for x in range(n):
+        for h in b.succ(x):
+            if b.dominates(h, x):
+                body = {h}
+                st = [x]
+                while st:
+                    y = st.pop()
+                    if y in body:
+                        continue
+                    body.add(y)
+                    st.extend(b.pred(y))
+                out.setdefault(h, set()).update(body)
+    return out
+
+
+def _iter_roots(b, header, body):
+    """places the loop's iterator is built from: roots of the receiver of the `next()` call in the loop"""
+    sl = Slice(b)
+    for blk in sorted(body):
+        t = b.blocks[blk]["t"]
+        if t["k"] == "call" and (t.get("f") or t["tf"]).endswith("::next") and t["args"]:
+            roots = set()
+            for r in sl.roots(t["args"][0]):
+                roots.add(str(r[1:]) if r[0] != "call" else "call:" + str(r[1]))
+            fields = set()
+            for r in sl.roots(t["args"][0]):
+                if r[0] in ("arg", "place", "local"):
+                    fields.add(str(r))
+            return roots
+    return None
+
+
+def two_pass(b, ci, i):
+    """the test at block ci sits in a loop that always runs to completion before the loop containing block i, and both loops walk the same sequence"""
+    loops = _loops(b)
+    l1 = [h for h, body in loops.items() if ci in body]
+    l2 = [h for h, body in loops.items() if i in body]
+    if not l1 or not l2:
+        return False
+    h1 = max(l1, key=lambda h: len(b.reachable_from([0]) & {h}) * 0 + (-len(loops[h])))   # innermost = smallest body
+    h2 = max(l2, key=lambda h: -len(loops[h]))
+    if h1 == h2 or i in loops[h1] or not b.dominates(h1, i):
+        return False
+    r1, r2 = _iter_roots(b, h1, loops[h1]), _iter_roots(b, h2, loops[h2])
+    return r1 is not None and r1 == r2 and bool(r1)
+
+
 def run(F, rep, tier):
     shallow_sites.clear()
     cg = CallGraph(F, [INTERP, CORE, "mech.lib", "mech_wasm.lib"])
@@ -194,6 +245,8 @@ def check_evaluator(F, rep, cg, variant, full, is_assign, mut_i, sym_i, insert_f
             rt = b.reachable_from([t_true], avoid={t_false})
             if b.dominates(ci, i) and (rt & err_exits) and not (rt & ok_exits) and i not in rt:
                 good = True
+            elif (rt & err_exits) and not (rt & ok_exits) and i not in rt and two_pass(b, ci, i):
+                good = True          # validate-all-then-insert-all over the same sequence
         if variant == "FsmDeclare":
             if not good:
                 rep.note("unconfirmed", "%s inserts a symbol (line %d) with no dominating redefinition test (no failing input established; not reported)" % (full, t["l"]))
